@@ -26,4 +26,5 @@ REWRITES = [
     {'name': 'clayton-pdf-operators', 'file': C, 'old': "        a = (self.theta + 1) * np.power(U * V, -(self.theta + 1))", 'new': "        a = (self.theta + 1) * (V * U) ** (-(self.theta + 1))"},
     {'name': 'gumbel-independence-ones-like', 'file': GU, 'old': "            return np.ones(len(U))\n\n        else:\n            a = np.power(U * V, -1)", 'new': "            return np.ones_like(U)\n\n        else:\n            a = 1 / (U * V)"},
     {'name': 'clayton-h-single-expression', 'file': C, 'old': "        B = np.power(V, -self.theta) + np.power(U, -self.theta) - 1\n        h = np.power(B, (-1 - self.theta) / self.theta)\n        return A * h", 'new': "        B = U ** (-self.theta) + V ** (-self.theta) - 1\n        return A * B ** (-(1 + self.theta) / self.theta)"},
+    {'name': 'log-pdf-temporary', 'file': 'bivariate/base.py', 'old': "        return np.log(self.probability_density(X))", 'new': "        density = self.probability_density(X)\n        return np.log(density)"},
 ]
